@@ -874,6 +874,19 @@ func generate(r *lib.Run) {
 	if malformedPanic != "" {
 		r.Sample("malformed frame made the library panic (same in both runs; C08 matter): " + malformedPanic)
 	}
+	defer func() {
+		// behavioural side of the string census: every packet-derived string field of the retained records was
+		// seen non-empty in a dump taken after the scribble (and predicted by the model) at least once
+		for _, f := range []string{"NameEntry.Name", "NameEntry.Model", "NameEntry.Manufacturer", "NameEntry.OS", "Lease.Name",
+			"DNSSearchList.DomainNames", "DNSEntry.Name", "IPResourceRecord.Name", "NameResourceRecord.Name", "NameResourceRecord.CName",
+			"DNSEntry.CNameRecords", "DNSEntry.PTRRecords"} {
+			if strCov[f] {
+				r.Stat("strcov."+f, 1)
+			} else {
+				r.Viol("c10-string-field-not-exercised", "no history of this run left the retained string field "+f+" non-empty", "")
+			}
+		}
+	}()
 	classes := []struct {
 		name  string
 		n     int
